@@ -5,9 +5,9 @@ package main
 // else is judged where it stands.
 
 import (
-	"strings"
 	"fmt"
 	"sort"
+	"strings"
 
 	"golang.org/x/tools/go/ssa"
 )
